@@ -173,7 +173,7 @@ Definition frombuf (buf : bytes) : hres :=
 Definition block (n : N) : N := if n mod 512 =? 0 then n else (n / 512 + 1) * 512.
 
 (* ---- extract_tar_stream's view of the destination: paths relative to dst ("" = dst itself) ---- *)
-Inductive entry := EDir (mode : N) | EFile (mode : N) (content : bytes).
+Inductive entry := EDir (mode : N) | EFile (mode : N) (content : bytes) | ELink (target : bytes).
 Definition tree := list (bytes * entry).
 Definition bytes_eqb (a b : bytes) : bool :=
   (length a =? length b)%nat && forallb (fun p => fst p =? snd p) (combine a b).
@@ -205,6 +205,7 @@ Fixpoint makedirs (fuel : nat) (p : bytes) (t : tree) : option tree :=
       match t_get p t with
       | Some (EDir _) => Some t
       | Some (EFile _ _) => None
+      | Some (ELink _) => None
       | None =>
           match p with
           | [] => Some (t_set [] (EDir 493) t)
@@ -247,10 +248,11 @@ Section Parser.
 
   (* AioTarInfo.fromtarfile with _proc_member: builtin and GNU long name/link; pax and sparse are
      outside the model *)
-  Inductive fres := FHdr (e : hres) | FSub | FUnsup | FOk (h : hdr) (offset_data next_offset : N).
+  Inductive fres := FHdr (e : hres) | FSub | FUnsup | FOk (h : hdr) (offset_data next_offset : N)
+                  | FFuel.   (* the model ran out of fuel (never the case with the fuel run_chunked/members_* give) *)
   Fixpoint fromtar (fuel : nat) (r : rst) : fres * rst :=
     match fuel with
-    | O => (FUnsup, r)
+    | O => (FFuel, r)
     | S f =>
         let '(buf, r1) := read 512 r in
         match frombuf buf with
@@ -269,6 +271,7 @@ Section Parser.
               | (FHdr _, r3) => (FSub, r3)            (* HeaderError -> SubsequentHeaderError *)
               | (FSub, r3) => (FSub, r3)
               | (FUnsup, r3) => (FUnsup, r3)
+              | (FFuel, r3) => (FFuel, r3)
               end
             else if is_pax_type (h_type h) then (FUnsup, r1)
             else (FOk h (pos r1) (pos r1 + (if has_data (h_type h) then block (h_size h) else 0)), r1)
@@ -277,7 +280,7 @@ Section Parser.
     end.
 
   (* AioTarStream.next; [offset] is tarstream.offset *)
-  Inductive nxt := NxErr | NxNone | NxUnsup | NxMem (h : hdr) (offset_data : N) (next_offset : N).
+  Inductive nxt := NxErr | NxNone | NxUnsup | NxMem (h : hdr) (offset_data : N) (next_offset : N) | NxFuel.
   Definition advance (offset : N) (r : rst) : option rst :=     (* None = ReadError *)
     if offset =? pos r then Some r
     else if legacy then seek offset r
@@ -297,6 +300,7 @@ Section Parser.
              | (FHdr _, r2) => ((if offset =? 0 then NxErr else NxNone), r2)
              | (FSub, r2) => (NxErr, r2)
              | (FUnsup, r2) => (NxUnsup, r2)
+             | (FFuel, r2) => (NxFuel, r2)
              end
          end.
 
@@ -381,9 +385,44 @@ Section Parser.
           | Some t1 =>
               match t_get p t1 with
               | Some (EFile _ _) => (Unsupported, t, r)
+              | Some (ELink _) => (Unsupported, t, r)
               | _ => (Done, t_set p (EDir (h_mode h)) t1, r)
               end
           end
+      end
+    else if h_type h =? T_SYM then
+      (* makelink: os.symlink(tarinfo.linkname, dst/<rel name>); the link name is NOT rewritten (35e756c) *)
+      match rel_under base (h_name h) with
+      | None | Some [] => (Unsupported, t, r)
+      | Some p =>
+          match makedirs (S (length p)) (dirname p) t with
+          | None => (Unsupported, t, r)
+          | Some t1 =>
+              match t_get p t1 with
+              | Some (EDir _) => (Unsupported, t, r)
+              | _ => (Done, t_set p (ELink (h_link h)) t1, r)
+              end
+          end
+      end
+    else if h_type h =? T_LNK then
+      (* linkname := relpath(linkname, basename(src)); os.link(dst/<rel link>, dst/<rel name>); chmod acts on
+         the shared inode.  A target that is not an already extracted regular file is outside the model *)
+      match rel_under base (h_name h), rel_under base (h_link h) with
+      | Some (x :: p'), Some q =>
+          let p := x :: p' in
+          match makedirs (S (length p)) (dirname p) t with
+          | None => (Unsupported, t, r)
+          | Some t1 =>
+              match t_get q t1, t_get p t1 with
+              | Some (EFile _ content), None =>
+                  (Done, t_set p (EFile (h_mode h) content) (t_set q (EFile (h_mode h) content) t1), r)
+              | Some (EFile _ content), Some (EFile _ _) =>
+                  if bytes_eqb p q then (Unsupported, t, r)
+                  else (Done, t_set p (EFile (h_mode h) content) (t_set q (EFile (h_mode h) content) t1), r)
+              | _, _ => (Unsupported, t, r)
+              end
+          end
+      | _, _ => (Unsupported, t, r)
       end
     else (Unsupported, t, r).
 
@@ -397,6 +436,7 @@ Section Parser.
         | (NxErr, _) => (ReadError, t)
         | (NxNone, _) => (Done, t)
         | (NxUnsup, _) => (Unsupported, t)
+        | (NxFuel, _) => (Hang, t)
         | (NxMem h od no, r1) =>
             match extract_member fuel base bufsz h od r1 t with
             | (Done, t', r2) => run_loop f base bufsz no r2 t'
@@ -416,6 +456,7 @@ Section Parser.
         | (NxErr, _) => (ReadError, acc)
         | (NxNone, _) => (Done, acc)
         | (NxUnsup, _) => (Unsupported, acc)
+        | (NxFuel, _) => (Hang, acc)
         | (NxMem h od no, r1) =>
             if has_data (h_type h) then
               match fsr_loop fuel None od (h_size h) 0 r1 [] with
